@@ -3,7 +3,7 @@
    facade) produced, in the canonical descriptor view of Desc.v. *)
 From Coq Require Import String List NArith Bool.
 From J5V.lib Require Import Outcome Corr Strcase.
-From J5V.model Require Import J5sAst Desc J5sWalk J5sConvert.
+From J5V.model Require Import J5sAst Desc J5sWalk J5sConvert J5sEdit.
 Import ListNotations.
 Local Open Scope N_scope.
 
@@ -29,12 +29,15 @@ Definition c02_check (c : c02case) : bool :=
   end.
 
 (* C13: the package before and after a sequence of append edits, both compiled by the real
-   compiler; the model must reproduce both. *)
+   compiler; the model must reproduce both - from the edited source as the generator printed
+   it (bd') and from the model's own application of the edits (apply_edits bd es), so that the
+   edits of the theorems are the edits that were tried. *)
 Inductive c13case :=
-| CEdit (bd bd' : bundle) (pkg : str) (ok ok' : bool) (files files' : list dfile).
+| CEdit (bd : bundle) (es : list edit) (bd' : bundle) (pkg : str) (ok ok' : bool) (files files' : list dfile).
 
 Definition c13_check (c : c13case) : bool :=
   match c with
-  | CEdit bd bd' pkg ok ok' files files' =>
-      c02_check (CCompile bd pkg ok files) && c02_check (CCompile bd' pkg ok' files')
+  | CEdit bd es bd' pkg ok ok' files files' =>
+      c02_check (CCompile bd pkg ok files) && c02_check (CCompile bd' pkg ok' files') &&
+      c02_check (CCompile (apply_edits bd es) pkg ok' files')
   end.
